@@ -851,6 +851,9 @@ func r7nea1apply(c *core.Ctx, R string, fn *ssa.Function) {
 
 // NIA1: P, Q from z1..z4, message blocks, length block, MAC = top half ^ z5
 func r7nia1eval(c *core.Ctx, R string, fn *ssa.Function) {
+	if r7nia1X(c, R, fn) {
+		return
+	}
 	p := core.NewPather(fn)
 	z := "local:*[5]uint32#0[:5]"
 	P := "((" + z + "[0]<<32)|" + z + "[1])"
